@@ -332,7 +332,15 @@ func runC06(c C06Case, o *Obs) error {
 			decl = append(decl, col)
 		}
 	}
-	if err := nat.Exec("create table n(" + strings.Join(decl, ", ") + ") without rowid"); err != nil {
+	hasKey := false
+	for _, col := range c.Cols {
+		hasKey = hasKey || col == "k"
+	}
+	natDDL := "create table n(" + strings.Join(decl, ", ") + ")"
+	if hasKey {
+		natDDL += " without rowid"
+	}
+	if err := nat.Exec(natDDL); err != nil {
 		return fmt.Errorf("native create: %v", err)
 	}
 	tn := uniqName("t")
@@ -535,4 +543,90 @@ func cellKeyClass(cell string) string {
 		}
 	}
 	return cell
+}
+
+// ---------------------------------------------------------------------------
+// tables without a PRIMARY KEY (hidden generated key): multiset semantics only
+
+func genC06NoKeyCase(t *rapid.T) C06Case {
+	c := C06Case{
+		EPN:   rapid.SampledFrom([]int{2, 3, 4, 4096}).Draw(t, "epn"),
+		NKeys: 4096, // rows are unbounded: keep the node cache off on multi-node trees (K4)
+	}
+	ncols := rapid.IntRange(1, 3).Draw(t, "ncols")
+	c.Cols = []string{"a", "b", "c"}[:ncols]
+	vals := rapid.SampledFrom([]Val{vNull(), vInt(0), vInt(1), vInt(2), vReal(1.5), vText("x"), vText("y"), vBlob([]byte{1})})
+	pred := func() (string, []Val) {
+		col := rapid.SampledFrom(c.Cols).Draw(t, "pcol")
+		switch rapid.IntRange(0, 3).Draw(t, "pk") {
+		case 0:
+			return col + " is null", nil
+		case 1:
+			return col + " = ?", []Val{vals.Draw(t, "pv")}
+		case 2:
+			return col + " >= ?", []Val{vals.Draw(t, "pv")}
+		default:
+			return col + " is not null", nil
+		}
+	}
+	n := rapid.IntRange(1, 40).Draw(t, "nops")
+	for i := 0; i < n; i++ {
+		switch r := rapid.IntRange(0, 99).Draw(t, "op"); {
+		case r < 45:
+			rows := 1
+			if rapid.IntRange(0, 4).Draw(t, "multi") == 0 {
+				rows = rapid.IntRange(2, 5).Draw(t, "nrows")
+			}
+			op := SQLOp{Kind: "ins", Rows: 1} // Rows=1: no key, so a multi-row INSERT cannot fail part-way
+			var tuples []string
+			for j := 0; j < rows; j++ {
+				for range c.Cols {
+					op.Args = append(op.Args, vals.Draw(t, "iv"))
+				}
+				tuples = append(tuples, "("+strings.TrimSuffix(strings.Repeat("?,", ncols), ",")+")")
+			}
+			op.Q = "insert into %T values " + strings.Join(tuples, ",")
+			c.Ops = append(c.Ops, op)
+		case r < 58:
+			col := rapid.SampledFrom(c.Cols).Draw(t, "ucol")
+			w, a := pred()
+			c.Ops = append(c.Ops, SQLOp{Kind: "upd", Q: "update %T set " + col + "=? where " + w, Args: append([]Val{vals.Draw(t, "uv")}, a...)})
+		case r < 68:
+			w, a := pred()
+			c.Ops = append(c.Ops, SQLOp{Kind: "del", Q: "delete from %T where " + w, Args: a})
+		case r < 90:
+			q := "select * from %T"
+			var args []Val
+			if rapid.Bool().Draw(t, "w") {
+				w, a := pred()
+				q += " where " + w
+				args = a
+			}
+			if rapid.IntRange(0, 3).Draw(t, "agg") == 0 {
+				q = strings.Replace(q, "select *", "select count(*), count("+c.Cols[0]+"), total("+c.Cols[0]+")", 1)
+				c.Ops = append(c.Ops, SQLOp{Kind: "sel", Q: q, Args: args, Ordered: true})
+			} else {
+				c.Ops = append(c.Ops, SQLOp{Kind: "sel", Q: q, Args: args})
+			}
+		case r < 95:
+			c.Ops = append(c.Ops, SQLOp{Kind: "reopen"})
+		default:
+			c.Ops = append(c.Ops, SQLOp{Kind: "reconnect"})
+		}
+	}
+	return c
+}
+
+func runC06NoKey(c C06Case, o *Obs) error {
+	err := runC06(c, o)
+	// non-trivial here: statements ran on a multi-node tree
+	o.NonTrivial = o.Classes["ops-on-height>=2"] > 0 || o.Classes["range-or-desc-on-height>=1"] > 0
+	return err
+}
+
+func init() { register("TestC06_NoKey", runC06NoKey) }
+
+func TestC06_NoKey(t *testing.T) {
+	st := newStats(t, "C06", "TestC06_NoKey", "tables declared without a PRIMARY KEY (rows get a hidden generated key) with 1-3 columns, entries_per_node 2-4096: 1-40 statements (single and multi-row INSERT, UPDATE and DELETE by non-key predicates, SELECT with and without predicates, aggregates, drop/re-create, new connection) in lock-step with a native rowid table; results compared as multisets; non-trivial = statements answered from a tree of height>=2")
+	checkRapid(t, st, genC06NoKeyCase, runC06NoKey)
 }
